@@ -26,6 +26,8 @@ def decorate(case):
     # every second response through command() / command_list() ("send followed by receive") instead of receive()
     if t[1] in ("a", "b") and t[3] != "err" and not t[3].startswith("err") and (h >> 9) % 4 in (1, 2):
         t[1] += "c" if (h >> 9) % 4 == 1 else "l"
+    elif t[1] in ("a", "b") and (h >> 9) % 4 == 3:
+        t[1] += "s"        # a pipelining client: a send before every receive
     return " ".join(t)
 
 
